@@ -282,7 +282,10 @@ Cat == <<
   (*110*) E(N("Sum", << P2(2, vx), P2(3, vx), vx >>)),
   \* a compiled expression over a DAG (its pickle is the expression + the listed variables)
   (*111*) CSH(N("Sum", << N("Product", << uxy, uxy >>), P2(3, N("Product", << uxy, vz >>)) >>),
-              << "z" >>, << "x", "y" >>)
+              << "z" >>, << "x", "y" >>),
+  \* built from source with the literal words True / False in it (every interpreter mode,
+  \* -O included, must be able to build it)
+  (*112*) EP(N("LogAnd", << K(BoolV(TRUE)), Cmp(vx, "<", vy), U("LogNot", K(BoolV(FALSE))) >>))
 >>
 NCat == Len(Cat)
 CatIds == 1..NCat
